@@ -444,11 +444,14 @@ def parRewrap (e : Err) : Err :=
   if e.rfc && e.name != errInvalidClient.name then errInvalidClient else e
 
 /-- `NewPushedAuthorizeRequest` followed, on success, by `NewPushedAuthorizeResponse`.  `req` is read from
-    `r.Form` (body AND URL query), `requestURI` is `r.Form.Get("request_uri")`.  `downstream c'` is the rest
-    of `newAuthorizeRequest` behind `f.Store.GetClient(ctx, form.Get("client_id"))`, the `openid` /
-    `redirect_uri` check and the response phase, run for the client `c'` that lookup returned. -/
+    `r.Form` (body AND URL query), `requestURI` is `r.Form.Get("request_uri")`.  `validate c'` is the rest
+    of `newAuthorizeRequest` behind `f.Store.GetClient(ctx, form.Get("client_id"))` (it writes nothing), run
+    for the client `c'` that lookup returned; `downstream c'` is the `openid` / `redirect_uri` check and the
+    response phase.  Between the two the validated client must be the authenticated one
+    ("Provided client_id mismatch.", repair 417e2e2). -/
 def parEndpoint (H : Hasher) (lookup : String → Option Registration) (http : Http)
-    (req : Request) (requestURI : String) (downstream : Registration → DResult) : Outcome :=
+    (req : Request) (requestURI : String) (validate : Registration → Option Err)
+    (downstream : Registration → DResult) : Outcome :=
   if http.method != "POST" then .early errInvalidRequest
   else if !http.parseOk then .early errInvalidRequest
   else
@@ -464,10 +467,16 @@ def parEndpoint (H : Hasher) (lookup : String → Option Registration) (http : H
         match lookup formClientID with
         | none => { auth := some a, result := .error errInvalidClient }
         | some c' =>
-          let r := downstream c'
-          match r.err with
-          | none => { auth := some a, result := .ok (some c'), ran := [.authorizeValidation, .response], writes := r.writes }
-          | some e => { auth := some a, result := .error e, ran := [.authorizeValidation], writes := r.writes }
+          match validate c' with
+          | some e => { auth := some a, result := .error e, ran := [.authorizeValidation] }
+          | none =>
+            if c'.id != client.id then                      -- `fr.GetClient().GetID() != client.GetID()`
+              { auth := some a, result := .error errInvalidRequest, ran := [.authorizeValidation] }
+            else
+              let r := downstream c'
+              match r.err with
+              | none => { auth := some a, result := .ok (some c'), ran := [.authorizeValidation, .response], writes := r.writes }
+              | some e => { auth := some a, result := .error e, ran := [.authorizeValidation], writes := r.writes }
 
 /-! ### device_request_handler.go -/
 
